@@ -7,6 +7,7 @@ import Driver.Translate
 import Driver.NameMap
 import Driver.Utf8
 import Driver.Repair
+import Driver.Forwarder
 /-
 Model driver: reads the op lines a harness engine wrote (first line `engine <name>`), runs the
 executable Lean model, prints one observation line per op line.  `/verif/check` diffs this
@@ -26,6 +27,7 @@ inductive St where
   | namemap
   | utf8
   | repair
+  | forwarder (d : Drv.Forwarder.DSt)
 
 def initSt (engine : String) : Option St :=
   match engine with
@@ -39,6 +41,7 @@ def initSt (engine : String) : Option St :=
   | "namemap" => some .namemap
   | "utf8" => some .utf8
   | "repair" => some .repair
+  | "forwarder" => some (.forwarder {})
   | _ => Option.none
 
 def stepSt (st : St) (line : String) : St × String :=
@@ -54,6 +57,7 @@ def stepSt (st : St) (line : String) : St × String :=
   | .namemap => (.namemap, Drv.NameMap.step line)
   | .utf8 => (.utf8, Drv.Utf8.step line)
   | .repair => (.repair, Drv.Repair.step line)
+  | .forwarder d => let (d', o) := Drv.Forwarder.step d line; (.forwarder d', o)
 
 partial def loop (h : IO.FS.Stream) (out : IO.FS.Stream) (st : St) : IO Unit := do
   let line ← h.getLine
